@@ -47,6 +47,9 @@ type c06Cfg struct {
 	// byte too long for a 63-byte address put a stray 0x00 in front of the client's first byte)
 	AddrLens    []int
 	DialErrLens []int
+	// TCPLike: the outbound connection has net.TCPConn's ReadFrom/WriteTo (which generic copy
+	// helpers delegate to, and which wrap errors in *net.OpError), as the direct outbound's has
+	TCPLike bool
 }
 
 // c06DecliningHook declines every request; its TCP/UDP methods must never be called.
@@ -93,6 +96,7 @@ func c06Run(e *vsched.Exec, c c06Cfg) {
 		r.DialErr[addr] = errors.New(c.DialErr)
 	}
 	r.TargetBuf = 8
+	r.TCPLikeTarget = c.TCPLike
 	nt := vquic.GetNet(e)
 	f := &c06Factory{}
 	cl, _, err := client.NewClient(&client.Config{ConnFactory: f, ServerAddr: r.pc.LocalAddr(), Auth: "good", FastOpen: c.FastOpen})
@@ -399,6 +403,15 @@ func c06Scenarios(thorough bool) []*explore.Scenario {
 			c06Cfg{Name: "dialerr" + sfx, AppSend: []string{"a"}, AppClose: "never", TgtClose: "never", FastOpen: fo, Logger: true, DialErr: "connection refused by policy", DecliningHook: true},
 		)
 	}
+	// the outbound connection is TCP-like (ReaderFrom/WriterTo)
+	for k := 1; k <= 3; k++ {
+		cfgs = append(cfgs, c06Cfg{Name: fmt.Sprintf("veto%d/tcp-like-target", k), AppSend: []string{"a", "bcd"}, TgtSend: []string{"x", "yz0"}, AppClose: "never", TgtClose: "never", Logger: true, VetoAt: k, TCPLike: true})
+	}
+	cfgs = append(cfgs,
+		c06Cfg{Name: "both-tgtcloses/tcp-like-target", AppSend: []string{"abc"}, TgtSend: []string{"x", "yz0"}, TgtClose: "after-reading-all", AppClose: "never", Logger: true, Whole: "both", TCPLike: true},
+		c06Cfg{Name: "c2t/nologger/tcp-like-target", AppSend: []string{"a", "bcd"}, AppClose: "after-writes", TgtClose: "never", Whole: "c2t", TCPLike: true},
+		c06Cfg{Name: "t2c/nologger/tcp-like-target", TgtSend: []string{"x", "yz0"}, TgtClose: "after-writes", AppClose: "never", Whole: "t2c", TCPLike: true},
+	)
 	// every address length and dial-error message length around the frame's varint boundaries
 	var lens, elens []int
 	for n := 4; n <= 130; n++ {
